@@ -58,6 +58,16 @@ type Ptrs struct {
 	SP *Sub             `json:"sp"`
 }
 
+// Outer holds a Wide by value (layout "outer"): a struct-mapped object inside a struct-mapped object whose
+// own members are objects again.
+type Outer struct {
+	A int64 `json:"a"`
+	W Wide  `json:"w"`
+}
+
+// NamedArr is a defined array type (value class arr_named).
+type NamedArr [2]string
+
 // NoTag has no json tags: property names are the field names (layout "notag").
 type NoTag struct {
 	A int64
@@ -111,6 +121,8 @@ func fieldsOf(t reflect.Type) []Field {
 				return "map_string_int"
 			case reflect.TypeOf(Sub{}):
 				return "sub"
+			case reflect.TypeOf(Wide{}):
+				return "wide"
 			}
 			if t.Kind() == reflect.Interface {
 				return "any"
@@ -143,7 +155,7 @@ func mk(id string, v any) *Layout {
 // Layouts in the order of spec/SchemaAST.tla.
 var Layouts = []*Layout{
 	mk("wide", Wide{}), mk("wide_p", &Wide{}), mk("ptrs", Ptrs{}), mk("notag", NoTag{}),
-	mk("sub", Sub{}), mk("sub_p", &Sub{}), mk("subptrs", SubPtrs{}),
+	mk("sub", Sub{}), mk("sub_p", &Sub{}), mk("subptrs", SubPtrs{}), mk("outer", Outer{}),
 }
 
 // ByID finds a layout.
